@@ -102,6 +102,7 @@ func verifyFunction(w *World, fn *ssa.Function, c *Contract, sweep bool) (res *F
 	}
 	entry := st.clone()
 	fc.entry = entry
+	fc.params = params
 	fc.env.old = entry
 	exit, results := e.runFunction(fc, st, params, free)
 	if c != nil {
@@ -147,49 +148,64 @@ func (e *Engine) emitAxioms(env *SpecEnv) {
 	}
 }
 
-func (e *Engine) frameObligations(fc *fnCtx, c *Contract, params []Val, entry, exit *State) {
-	env := e.contractEnv(c, params, entry, entry)
+// frameAllowed resolves the modifies clause of the contract under verification once (in the entry state).
+func (e *Engine) frameAllowed(fc *fnCtx) map[string][]string {
+	if fc.allowed != nil {
+		return fc.allowed
+	}
+	c := fc.contract
+	env := e.contractEnv(c, fc.params, fc.entry, fc.entry)
 	allowed := map[string][]string{} // heap -> refs ("" = whole heap)
 	for _, m := range c.Modifies {
 		for _, loc := range e.designatorLocs(env, m) {
 			allowed[loc.heap] = append(allowed[loc.heap], loc.ref)
 		}
 	}
+	fc.allowed = allowed
+	return allowed
+}
+
+// frameFormula: heap n in state st agrees with the entry state everywhere the contract does not allow a change.
+// ok=false when the whole heap may be modified.
+func (e *Engine) frameFormula(fc *fnCtx, n string, st *State) (string, bool) {
+	allowed := e.frameAllowed(fc)
+	srt := e.heapSorts[n]
+	h0, h1 := e.heapIn(fc.entry, n, srt), e.heapIn(st, n, srt)
+	var refs []string
+	for _, r := range allowed[n] {
+		if r == "" {
+			return "", false
+		}
+		refs = append(refs, r)
+	}
+	if h0 == h1 {
+		return "true", true
+	}
+	scalar := strings.HasPrefix(n, "G_") || strings.HasPrefix(n, "GH_") || !strings.HasPrefix(srt, "(Array Int ")
+	if scalar {
+		return eq(h1, h0), true
+	}
+	conds := []string{"(<= r " + e.allocCounter(fc.entry) + ")"}
+	for _, r := range refs {
+		conds = append(conds, "(not (= r "+r+"))")
+	}
+	return "(forall ((r Int)) (! (=> " + and(conds...) + " (= (select " + h1 + " r) (select " + h0 + " r))) :pattern ((select " + h1 + " r))))", true
+}
+
+func (e *Engine) frameObligations(fc *fnCtx, c *Contract, params []Val, entry, exit *State) {
 	if exit.Epoch != entry.Epoch {
 		e.addObl(fc.fn, "frame", "* (a callee with unknown effects is reached; contract needs `modifies *`)", fc.fn.Pos(), exit.Reach, "false")
 		return
 	}
-	alloc0 := e.allocCounter(entry)
 	for _, n := range sortedKeys(exit.Heaps) {
 		if n == allocHeap {
 			continue
 		}
-		srt := e.heapSorts[n]
-		h0, h1 := e.heapIn(entry, n, srt), exit.Heaps[n]
-		if h0 == h1 {
+		f, ok := e.frameFormula(fc, n, exit)
+		if !ok || f == "true" {
 			continue
 		}
-		whole := false
-		var refs []string
-		for _, r := range allowed[n] {
-			if r == "" {
-				whole = true
-			}
-			refs = append(refs, r)
-		}
-		if whole {
-			continue
-		}
-		scalar := strings.HasPrefix(n, "G_") || strings.HasPrefix(n, "GH_") || !strings.HasPrefix(srt, "(Array Int ")
-		if scalar {
-			e.addObl(fc.fn, "frame", n, fc.fn.Pos(), exit.Reach, eq(h1, h0))
-			continue
-		}
-		conds := []string{"(<= r " + alloc0 + ")"}
-		for _, r := range refs {
-			conds = append(conds, "(not (= r "+r+"))")
-		}
-		e.addObl(fc.fn, "frame", n, fc.fn.Pos(), exit.Reach, "(forall ((r Int)) (=> "+and(conds...)+" (= (select "+h1+" r) (select "+h0+" r))))")
+		e.addObl(fc.fn, "frame", n, fc.fn.Pos(), exit.Reach, f)
 	}
 }
 
